@@ -169,6 +169,8 @@ SPECS = [
     dict(name="fit_file_block", py="aspire.py:Aspire.fit", mode="file", part="fit"),
     dict(name="sample_pre_block", py="aspire.py:Aspire.sample_posterior", mode="file", part="sample_pre"),
     dict(name="sample_post_block", py="aspire.py:Aspire.sample_posterior", mode="file", part="sample_post"),
+    # the prologue of SMCSampler.sample (twelfth vocabulary: entry2lean.py)
+    dict(name="smc_prologue", py="samplers/smc/base.py:SMCSampler.sample", mode="entry"),
     # the layout of the diagnostic history in a file (eleventh vocabulary: hist2lean.py)
     dict(name="smc_history_save", py="history.py:SMCHistory.save", mode="hist", part="save"),
     dict(name="smc_history_load", py="history.py:SMCHistory.load", mode="hist", part="load"),
@@ -214,6 +216,7 @@ GROUPS = {
     "SrcEval": (["EvalOps"], ["sampler_log_likelihood", "draw_initial_samples", "importance_eval", "mcmc_target_eval", "smc_target_eval",
                               "minipcn_mutate_eval", "emcee_mutate_eval"]),
     "SrcFile": (["FileOps"], ["fit_file_block", "sample_pre_block", "sample_post_block"]),
+    "SrcEntry": (["EntryOps"], ["smc_prologue"]),
     "SrcHist": (["HistOps"], ["smc_history_save", "smc_history_load"]),
     "SrcConv": (["ConvOps"], ["conv_post_init", "base_to_numpy", "base_to_namespace", "base_from_samples", "samples_to_namespace", "samples_to_numpy",
                               "smc_to_namespace", "smc_to_numpy", "conv_dispatch"]),
